@@ -297,8 +297,10 @@ func (r *NodeManagement) processNotifyDetailedDiscoveryData(message *api.Message
 			bindingMgr := r.Device().BindingManager()
 			bindingMgr.RemoveBindingsForEntity(removedEntity)
 
-			// remove all feature caches for this entity
-			r.Device().CleanRemoteEntityCaches(removedEntity.Address())
+			// remove all feature caches for this entity; the caches are keyed by the
+			// address of the remote device, which an entity created before the
+			// detailed discovery reply does not carry
+			r.Device().CleanRemoteEntityCaches(EntityAddressType(remoteDevice.Address(), removedEntity.Address().Entity))
 		}
 	}
 
